@@ -13,6 +13,9 @@
 //!       `schedule_at` on each day (day numbers = `num_days_from_ce`, `a..b` inclusive):
 //!       `<AST dump> | <ranges>*<run length>…` with `<ranges>` = `start-end-kind[-comments]` joined by `,`
 //!   hol.pdate <s>…                       `NaiveDate::parse_from_str(s, "%Y-%m-%d")`: `ok:<yyyymmdd>` | `err`
+//!   hol.raw <pub|school>                 the pair `decode_holidays_db` is called with, through the guarded hook
+//!       `Country::verif_holiday_db()`: `<regions string, percent-encoded> <n compressed bytes> <lower-case hex of the
+//!       embedded (still deflated) bytes>`; the driver inflates them with the Lean model of RFC 1951
 //! `<CC>` is the `Debug` name of the variant.
 use crate::ast;
 use crate::util::{catch, enc, Rng};
@@ -204,6 +207,22 @@ pub fn exec(op: &str, a: &[&str]) -> Option<String> {
                 Err(p) => Some(format!("{astd} | {p}")),
             }
         }
+        "hol.raw" if a.len() == 1 => {
+            let (regions, bytes) = match a[0] {
+                "pub" => Country::verif_holiday_db()[0],
+                "school" => Country::verif_holiday_db()[1],
+                _ => return None,
+            };
+            let mut hex = String::with_capacity(2 * bytes.len());
+            for b in bytes {
+                hex.push(char::from_digit((b >> 4) as u32, 16).unwrap());
+                hex.push(char::from_digit((b & 15) as u32, 16).unwrap());
+            }
+            if hex.is_empty() {
+                hex.push('-');
+            }
+            Some(format!("{} {} {}", enc(regions), bytes.len(), hex))
+        }
         "hol.pdate" => {
             let v: Option<Vec<String>> = a
                 .iter()
@@ -246,6 +265,9 @@ fn dn(y: i32, m: u32, d: u32) -> i64 {
 pub fn gen(tier: &str, rng: &mut Rng, emit: &mut dyn FnMut(String)) {
     let thorough = tier == "thorough";
     emit(format!("hol.load {DATA_PUBLIC} {DATA_SCHOOL}"));
+    // the embedded (deflated) bytes and region strings themselves
+    emit("hol.raw pub".into());
+    emit("hol.raw school".into());
     emit("hol.all".into());
     for c in Country::ALL {
         emit(format!("hol.country {c:?}"));
